@@ -229,7 +229,7 @@ mut("c17-zip-mode-w", "minerals.py", "                archive = ZipFile(filename
 mut("c17-float32", "minerals.py", "                \"orientations\": np.stack(self.orientations),", "                \"orientations\": np.stack(self.orientations).astype(np.float32).astype(np.float64),", ["C17"])
 mut("c17-revert-F10", "minerals.py", "        self.n_grains = len(self.fractions[0])\n", "", ["C17"])
 mut("c17-revert-F11", "minerals.py", "        if not str(filename).endswith(\".npz\"):\n            raise ValueError(\n                f\"Must only save to numpy NPZ format. Cannot save to {filename}.\"\n            )\n", "", ["C17"])
-mut("c17-ngrains-check-removed", "minerals.py", "        if self.fractions[0].shape[0] == self.orientations[0].shape[0] == self.n_grains:\n            data = {", "        if self.fractions[0].shape[0] == self.orientations[0].shape[0]:\n            data = {", ["C17"])
+mut("c17-ngrains-check-removed", "minerals.py", "            == np.shape(self.orientations[0])[:1]\n            == (self.n_grains,)\n        ):", "            == np.shape(self.orientations[0])[:1]\n        ):", ["C17"])
 
 # ---------------------------------------------------------------- C18
 mut("c18-indices-swapped-XY", "geometry.py", "        case (\"X\", \"Y\"):\n            indices = (0, 1)", "        case (\"X\", \"Y\"):\n            indices = (1, 0)", ["C18"],
